@@ -6,6 +6,13 @@ From LMBase Require Import Res ListX IEEE.
 From LMMaxi Require Import MaxiModel MaxiProofs MaxiKernels MaxiIEEE.
 Import ListNotations.
 
+(* boolean sweep -> Forall (used by the non-vacuity examples) *)
+Lemma forallb_Forall {A} (p : A -> bool) (P : A -> Prop) (l : list A) :
+  (forall x, p x = true -> P x) -> forallb p l = true -> Forall P l.
+Proof.
+  intros Hp H. apply Forall_forall. intros x Hx. apply Hp. rewrite forallb_forall in H. auto.
+Qed.
+
 Section Top.
   Context {T : Type}.
   Variable le : T -> T -> bool.
@@ -170,6 +177,25 @@ Section Top.
     destruct (get_ok_range C m r c x Hwf H) as [Hr Hc].
     exists (offset m (r, c)). split; [apply offset_lt; auto|].
     destruct (argmax_offset m r c Hr) as [_ E]. rewrite E. exact H.
+  Qed.
+
+  (* StripedScores::threshold in terms of scores[i]: exactly the positions below rows * C
+     whose score is >= t *)
+  Theorem ss_threshold_index (C : nat) (m : matrix) (t : T) :
+    wf C m ->
+    forall i, In i (ss_threshold le m t) <->
+              i < length m * C /\ exists v, index_usize m i = Ok v /\ le t v = true.
+  Proof.
+    intros Hwf i. destruct (ss_threshold_ok le C m t Hwf) as [_ H]. rewrite H. split.
+    - intros (r & c & v & Hr & Hc & -> & Hg & Ht). split.
+      + exact (offset_lt C m r c Hr Hc).
+      + exists v. split; auto. destruct (argmax_offset m r c Hr) as [E1 E2].
+        unfold offset in E2. cbn [fst snd] in E2. rewrite E2. exact Hg.
+    - intros (Hi & v & Hv & Ht). unfold index_usize in Hv.
+      destruct (length m) as [|R'] eqn:ER; [discriminate|]. set (R := S R') in *.
+      destruct (get_ok_range C m _ _ _ Hwf Hv) as [Hr Hc].
+      rewrite ER in Hr. exists (i mod R), (i / R), v. repeat split; auto.
+      rewrite Nat.mul_comm. apply Nat.div_mod. unfold R. lia.
   Qed.
 
   (* ---------- linear Scores ---------- *)
